@@ -121,7 +121,7 @@ class Gen:
         if "call" in self.f and self.pool and depth > 0:
             choices += ["call", "call"]
         if "create" in self.f and depth > 0:
-            choices += ["create"]
+            choices += ["create", "create", "create"]
         if "symcall" in self.f:
             choices = ["symcall", "symcall", "symcall", "extcode", "extcode", "mstore", "call", "if"]
         if "valuecall" in self.f and self.pool:
@@ -386,7 +386,7 @@ class Gen:
     def create(self):
         r = self.r
         rt = assemble([("push", r.choice([0, 7])), "PUSH0", "SSTORE", "STOP"]) if r.random() < 0.5 else assemble(["CALLER", "PUSH0", "MSTORE", ("push", 32), "PUSH0", "RETURN"])
-        mode = r.choice(["ok", "ok", "revert", "invalid", "ctx"])
+        mode = r.choice(["ok", "ok", "revert", "invalid", "ctx", "ctx"])
         if mode == "ctx":
             # the constructor looks at its own context: calldata is EMPTY in a creation frame (copy, load, size),
             # the deployed code records what it saw
